@@ -438,6 +438,15 @@ func gen(args []string) {
 		} {
 			fmt.Fprintln(out, hx([]byte(c)))
 		}
+	case "amplify":
+		k := *n
+		// error amplification: k unclosed openers followed by ONE long token (16*k bytes) at the failure point -- every
+		// level reports an error while the recursion unwinds; what is allocated per level must not grow with the token
+		for _, op := range []string{"(", "[", "f(", "CASE WHEN ", "(SELECT ", "x IN (", "a.1 + (", "CAST(", "tuple(1, "} {
+			for _, long := range []string{"'" + strings.Repeat("x", 16*k) + "'", strings.Repeat("y", 16*k), "1" + strings.Repeat("0", 16*k), "`" + strings.Repeat("z", 16*k) + "`", "/* " + strings.Repeat("c", 16*k) + " */ ]"} {
+				fmt.Fprintln(out, hx([]byte("SELECT "+strings.Repeat(op, k)+"1 "+long)))
+			}
+		}
 	case "nest":
 		size := *n
 		units := []struct{ open, close string }{{"(", ")"}, {"[", "]"}, {"f(", ")"}, {"CASE WHEN ", " THEN 1 END"}, {"(SELECT ", ")"}, {"NOT ", ""}, {"- ", ""}, {"a.", ""}, {"1 + ", ""}, {"x IN (", ")"}}
